@@ -9,6 +9,8 @@ mod exec4;
 mod exec5;
 mod exec6;
 mod exec7;
+mod exec8;
+mod alloc;
 mod sources;
 mod gen;
 mod gen2;
@@ -22,6 +24,9 @@ mod wiregen;
 
 use std::collections::BTreeMap;
 use std::io::{BufRead, Write};
+
+#[global_allocator]
+static GLOBAL: alloc::Counting = alloc::Counting;
 
 fn main() {
     std::panic::set_hook(Box::new(|_| {}));
